@@ -428,10 +428,10 @@ def same(a, b):
     return same_result(norm(a), norm(b))
 
 
-def page_case(rng, doc, sel, tags=(), kind="structured", hist=None, flags=None, model=None, jopts=None):
+def page_case(rng, doc, sel, tags=(), kind="structured", hist=None, flags=None, model=None, jopts=None, data=None):
     """hist = (kind, steps) done on the source before the import; flags = cache configuration (None: random);
     model = False: judged by the specification only; jopts: options of G.judge_import"""
-    data = docs.write(doc, rng)
+    data = docs.write(doc, rng) if data is None else data      # (data given: the document written in another way, e.g. encrypted)
     hkind, steps = hist if hist is not None else ("none", [])
     g = apply_updates(dict(doc.objs), steps)
     if flags is None:
@@ -454,6 +454,15 @@ def page_case(rng, doc, sel, tags=(), kind="structured", hist=None, flags=None, 
                 model=("typed-writer-refuses" not in doc.features) if model is None else model, tags=["pages"] + sorted(doc.features) + list(tags), kind=kind)
 
 
+def seq_error(kind, sel):
+    """mode import_seq records a page that fails and goes on; an error of the whole run after the source was loaded means
+    that the pages which WERE imported cannot be saved or read back — they are not a self-contained document (C20-f)"""
+    if kind.startswith(("build:", "reload", "reopen")):
+        return "the target document cannot be %s after the sequence %s: the imported pages are lost with the failed ones (%s)" % (
+            "built" if kind.startswith("build:") else "read back", ",".join(map(str, sel)), kind[:80])
+    return None
+
+
 def seq_case(rng, doc, sel, tags=(), hist=None, flags=None, jopts=None):
     """mode import_seq: the pages of `sel` through one Importer, going on after a page that fails.  Every page that was
     imported is judged as if it had been imported alone: equal to its source page, self-contained, shared objects copied
@@ -468,7 +477,7 @@ def seq_case(rng, doc, sel, tags=(), hist=None, flags=None, jopts=None):
 
     def chk(r, g=g, tr=tr, sel=list(sel), exp=doc.expect, jopts=dict(jopts or {})):
         if r[0] == "ERR":
-            return None
+            return seq_error(r[1], sel)
         if r[0] != "OK":
             return "importing must not %s (%s)" % (r[0], r[1][:80])
         status = r[1][0]
@@ -656,7 +665,7 @@ def generate(rng, tier):
         k = len(doc.pages)
         sel = list(range(k)) if i % 3 else [rng.randrange(k) for _ in range(rng.randrange(1, 4))]
         hk = rng.choice(["none", "none", "render", "render-all", "ops", "decode-all", "fonts", "images"])
-        yield page_case(rng, doc, sel, tags=["form-pattern"], model=False, jopts=PATTERN_JOPTS, hist=rnd_page_history(rng, doc, sel, hk))
+        yield page_case(rng, doc, sel, tags=["form-pattern"], model=False, hist=rnd_page_history(rng, doc, sel, hk))
 
 
     # marked content: BMC / MP, BDC / DP with an inline property list, with references in it (to one object, shared between
@@ -700,10 +709,6 @@ def generate(rng, tier):
         fail = docs.FAIL_KINDS[i % len(docs.FAIL_KINDS)]
         share = docs.SHARE_KINDS[i % len(docs.SHARE_KINDS)]
         doc = docs.gen_doc(rng, npages=rng.choice([2, 2, 3, 4]))
-        while "typed-writer-refuses" in doc.features:
-            # (a value the typed writers refuse fails in `fulfill`: the reserved id stays an open promise and the target
-            #  cannot be saved at all — nothing to judge; reported as a defect of the unchanged library)
-            doc = docs.gen_doc(rng, npages=rng.choice([2, 2, 3, 4]))
         a, b = docs.plant_failing_share(doc, rng, fail, share)
         k = len(doc.pages)
         others = [x for x in range(k) if x not in (a, b)]
@@ -726,10 +731,19 @@ def generate(rng, tier):
         yield unreadable_case(rng, doc, sel, num, nbytes)
 
 
-# The typed PatternDict has no field for /Type and /PatternType and no catch-all: the copy of a tiling pattern lacks both
-# (a defect of the typed writer, C15's subject; /PatternType is required by Table 75).  The cases about patterns are
-# narrowed to everything else — operation sequence, the other entries, the resources used — by naming the two keys here.
-PATTERN_JOPTS = {"pattern_lost_ok": ("Type", "PatternType")}
+    # intact encrypted sources (R4 / AESV2, where the ciphertext is longer than the data, and R3 / RC4): streams reached through
+    # untyped references (the fonts' embedded files, a soft-mask group, a /PieceInfo stream) and typed ones are readable in the
+    # new document and their data equal the source's (finding C20-h)
+    for i in range(8 if quick else 120):
+        kind = docs.UNREADABLE_KINDS[i % len(docs.UNREADABLE_KINDS)]
+        doc = docs.gen_doc(rng, npages=rng.choice([1, 2, 3]))
+        pi, num = docs.plant_unreadable(doc, rng, kind)
+        doc.features.discard("unreadable:" + kind)
+        method = "AESV2" if i % 4 != 3 else "V2"
+        data = docs.write_encrypted(doc, rng, None, None, method)
+        sel = [pi] if i % 2 else list(range(len(doc.pages)))
+        yield page_case(rng, doc, sel, tags=["encrypted-source", "untyped-stream:" + kind], data=data, jopts={"page_entries": True},
+                        hist=rnd_page_history(rng, doc, sel, rng.choice(["none", "none", "render", "decode-all"])))
 
 
 def always(case, r):
@@ -775,6 +789,37 @@ def witness_case(f, c):
             gs = G.graph_of_dump(R["src_objs"])
             ts = G.of_canon(R["src_trailer"])
             return G.judge_import(gs, ts, sel, r[1], content_tokens=True)
+        c.check = chk
+        c.model = False
+        if f.get("must_succeed"):
+            c.check = lambda r, chk=chk: ("the import must succeed: %s %s" % (r[0], r[1][:120])) if r[0] != "OK" else chk(r)
+    elif c.mode == "import_seq":
+        # field `must_import` of the finding: indices into the sequence of the pages that import alone (known by construction)
+        sel = [int(x) for x in c.fields[2].split(b",")]
+        c.fields[3] = b"s"
+        must = f.get("must_import", [])
+
+        def chk(r, sel=sel, must=must):
+            if r[0] == "ERR":
+                return seq_error(r[1], sel) or ("the sequence must run: ERR %s" % r[1][:120] if must else None)
+            if r[0] != "OK":
+                return "importing must not %s (%s)" % (r[0], r[1][:80])
+            status = r[1][0]
+            if len(status) != len(sel):
+                return "harness: %d page states for %d pages" % (len(status), len(sel))
+            for k in must:
+                if status[k] != ord("k"):
+                    return "page %d (position %d of the sequence %s, states %s) imports alone but failed here" % (
+                        sel[k], k, ",".join(map(str, sel)), status.decode())
+            done = [p for p, x in zip(sel, status) if x == ord("k")]
+            if not done:
+                return None
+            n = int(r[1][1])
+            rest = r[1][1:]
+            R = G.split_import_result(rest)
+            gs = G.graph_of_dump(R["src_objs"])
+            ts = G.of_canon(R["src_trailer"])
+            return G.judge_import(gs, ts, done, rest, content_tokens=True, page_entries=True)
         c.check = chk
         c.model = False
     return c
